@@ -62,7 +62,13 @@ func envInt(name string, def int64) int64 {
 	return def
 }
 
-const verifDir = "/verif"
+// verifDir is the root the check runs in: /verif, or a snapshot of it.
+var verifDir = func() string {
+	if d := os.Getenv("VERIF_DIR"); d != "" {
+		return d
+	}
+	return "/verif"
+}()
 
 // DriverMain is the entry point of `check <id> <tier>` and `check replay <path>`.
 func DriverMain(args []string) int {
